@@ -1,6 +1,6 @@
 //! unit: {"container": "impl Curve", "file": "src/ecm.rs", "hoist": true, "kind": "fn", "name": "make_addition_chain", "props": ["C15", "C03"]}
 //! ---- pinned ----
-    pub(crate) fn make_addition_chain(chain: &mut [i8; 32], k: u64) -> usize {
+    pub(crate) fn make_addition_chain(chain: &mut [i8], k: u64) -> usize {
         // Build an addition chain for a 64-bit multiplier
         // as a reversed list of opcodes:
         // - an odd opcode x (|x| <= 7) means: P -> 2P + xG
@@ -9,7 +9,7 @@
         // - an even opcode 2y means: P -> 2^y P
         //
         // For any integer, 2 opcodes can remove 4 bits, so the chain length
-        // is never more than 32.
+        // is never more than 33 (e.g. for k = 0xF111111111111111).
         if k == 0 {
             chain[0] = 0;
             return 1;
@@ -45,13 +45,14 @@
         }
     }
 //! ---- annotated ----
-    pub(crate) fn make_addition_chain(chain: &mut [i8; 32], k: u64) -> (r: usize)
+    pub(crate) fn make_addition_chain(chain: &mut [i8], k: u64) -> (r: usize)
+        requires old(chain)@.len() >= 34,
         ensures
-            1 <= r,
-            // a return means every store was in bounds (the stores themselves are the obligations of finding F2b)
-            r <= 32,
+            final(chain)@.len() == old(chain)@.len(),
+            // 2 opcodes remove 4 bits: never more than 33 opcodes (F2b: the bound 32 of the original comment is wrong)
+            1 <= r <= 33,
             k == 0 ==> r == 1 && final(chain)@[0] == 0,
-            k != 0 && r <= 32 ==> chain_value(final(chain)@, r as int) == k as int
+            k != 0 ==> chain_value(final(chain)@, r as int) == k as int
                 && final(chain)@[r - 1] % 2 == 1 && 1 <= final(chain)@[r - 1] <= 7
                 && forall|i: int| 0 <= i < r - 1 ==> (#[trigger] final(chain)@[i] % 2 == 0 ==> 2 <= final(chain)@[i] <= 126)
                     && (final(chain)@[i] % 2 != 0 ==> -7 <= final(chain)@[i] <= 7),
@@ -64,19 +65,25 @@
         // - an even opcode 2y means: P -> 2^y P
         //
         // For any integer, 2 opcodes can remove 4 bits, so the chain length
-        // is never more than 32.
+        // is never more than 33 (e.g. for k = 0xF111111111111111).
         if k == 0 {
             chain[0] = 0;
             return 1;
         }
         let mut l = 0;
         let mut kk = k;
+        let ghost clen = chain@.len();
+        let ghost mut gb: nat = 64;
+        proof { lemma2_to64(); assert(chain_t(64) == 33); }
         loop
             invariant
-                kk >= 1, k != 0,
-                l <= 32 ==> prefix_apply(chain@, l as int, kk as int) == k as int,
-                forall|i: int| 0 <= i < l && i < 32 ==> (#[trigger] chain@[i] % 2 == 0 ==> 2 <= chain@[i] <= 126)
+                kk >= 1, k != 0, chain@.len() == clen, clen >= 34, clen == old(chain)@.len(),
+                prefix_apply(chain@, l as int, kk as int) == k as int,
+                forall|i: int| 0 <= i < l ==> (#[trigger] chain@[i] % 2 == 0 ==> 2 <= chain@[i] <= 126)
                     && (chain@[i] % 2 != 0 ==> -7 <= chain@[i] <= 7),
+                // potential: the opcodes still to come fit below 33
+                gb <= 64, (kk as int) < pow2(gb) as int,
+                chain_pot(l as int, kk as int, gb),
             decreases kk
         {
             let ghost c0 = chain@;
@@ -85,7 +92,9 @@
                 let tz = kk.trailing_zeros();
                 proof {
                     lemma_tz_arith(kk, tz);
-                    assert(tz >= 1) by { if tz == 0 { assert(pow2(0) == 1) by { lemma2_to64(); } } };
+                    if tz == 0 { lemma2_to64(); assert(pow2(0) == 1); assert(kk as int / 1 == kk as int); assert(false); }
+                    lemma_chain_pot_even(l as int, kk as int, gb, tz as nat);
+                    lemma_chain_pot_bound(l as int, kk as int, gb);
                 }
                 chain[l] = 2 * tz as i8;
                 kk >>= tz;
@@ -102,15 +111,18 @@
                     lemma_pow2_strictly_increases(0, tz as nat); lemma2_to64();
                     if kk == 0 { lemma_mul_one(pt); }
                     lemma_mul_lt_pos(1, pt, kk as int); lemma_mul_one(kk as int);
+                    gb = (gb - tz) as nat;
                 }
                 l += 1;
             } else if kk <= 7 {
+                proof { lemma_chain_pot_bound(l as int, kk as int, gb); }
                 chain[l] = kk as i8;
                 proof { lemma_prefix_apply_frame(c0, chain@, l as int, kk as int); }
                 return l + 1;
             } else {
                 // Integer is odd, look at 4 LSB.
                 let r = kk % 16;
+                proof { lemma_chain_pot_odd(l as int, kk as int, gb); lemma_chain_pot_bound(l as int, kk as int, gb); }
                 if r < 8 {
                     // Encode as 2k+r
                     chain[l] = r as i8;
@@ -119,6 +131,8 @@
                     proof {
                         assert(op_apply(r as int, kk as int) == kk0 as int);
                         lemma_prefix_apply_push(c0, chain@, l as int - 1, kk0 as int, kk as int);
+                        lemma_pow2_unfold(gb);
+                        gb = (gb - 1) as nat;
                     }
                 } else {
                     // Encode as 2k-r
@@ -130,6 +144,9 @@
                     proof {
                         assert(op_apply(-(rop as int), kk as int) == kk0 as int);
                         lemma_prefix_apply_push(c0, chain@, l as int - 1, kk0 as int, kk as int);
+                        lemma_pow2_unfold(gb);
+                        lemma_chain_carry(kk0 as int, rop as int, gb);
+                        if (kk0 as int) + (rop as int) < pow2(gb) as int { gb = (gb - 1) as nat; }
                     }
                 }
             }
